@@ -397,9 +397,78 @@ def case_union(ctx, case):
         ctx.violation("union-final-position:%s" % ("none" if sel is None else type(sel).__name__), "stream at %d after Union, expected %d (parsefrom=%r)" % (s.pos, wantpos, sel), case)
     if len(set(r[2] for r in isos)) > 1:
         ctx.nontrivial("union", case)
+    # the generated-code implementation of the same Union: same members from the same start, same final position
+    key = repr((members, pf))
+    if key not in COMPILED:
+        if len(COMPILED) > 4000:
+            COMPILED.clear()
+        try:
+            COMPILED[key] = d.compile()
+        except Exception:
+            COMPILED[key] = None
+    dc = COMPILED[key]
+    if dc is None:
+        ctx.count("union_not_compilable")
+        return
+    s2 = TracedStream(data, pos=off)
+    ctx.ev()
+    try:
+        gotc = dc.parse_stream(s2, **kw)
+    except Exception as e:
+        ctx.violation("union-compiled-raises:" + type(e).__name__, "the interpreted Union parses, the compiled one raised %s: %s" % (type(e).__name__, str(e)[:120]), case)
+        return
+    for (n, m), r in zip(members, isos):
+        if n and not veq(gotc.get(n), r[1]):
+            ctx.violation("union-compiled-member-not-from-start", "compiled: member %r = %r, alone from the start = %r" % (n, gotc.get(n), r[1]), case)
+            return
+    if s2.pos != wantpos:
+        ctx.violation("union-compiled-final-position:%s:%s" % ("none" if sel is None else type(sel).__name__, "after-unnamed" if any(nn is None for nn, _ in members) else "named"),
+                      "compiled Union leaves the stream at %d, expected %d (parsefrom=%r)" % (s2.pos, wantpos, sel), case)
+    ctx.count("union_compiled_compared")
 
 
-KINDS = {"peek": case_peek, "pointer": case_pointer, "select": case_select, "greedy": case_greedy, "union": case_union}
+COMPILED = {}
+
+
+def case_bitprobe(ctx, case):
+    """alternatives / repetition / optional parts inside a bit region whose size is discovered while streaming: a probe that runs
+    out of bits part-way leaves no trace - the bits it looked at are still there for what follows.  Reference: rv.refmodel."""
+    from ..recipes import mk as mkr
+    from .. import refmodel as M
+    from ..libmodel import lib_parse, model_parse, same_value
+    r, data = case["recipe"], untag(case["data"])
+    ctx.ev()
+    mp = model_parse(r, data, {})
+    if mp[0] == "gap":
+        ctx.count("bitprobe_model_gap")
+        return
+    lp = lib_parse(mkr(r), data, {})
+    if mp[0] == "ok":
+        if lp[0] != "ok":
+            ctx.violation("bitprobe-rejects-valid", "reference parses %s to %r, library raised %s" % (data.hex(), mp[1], lp[1:]), case)
+        elif not same_value(lp[1], mp[1]) or lp[2] != mp[2]:
+            ctx.violation("bitprobe-value", "parse(%s): library %r (%d bytes), reference %r (%d bytes)" % (data.hex(), lp[1], lp[2], mp[1], mp[2]), case)
+        else:
+            ctx.nontrivial("bitprobe", case["recipe"][1][0] if isinstance(case["recipe"][1], list) else "", len(data), data[:1])
+    elif lp[0] == "ok":
+        ctx.violation("bitprobe-accepts-invalid", "reference rejects %s (%s), library returned %r" % (data.hex(), mp[1], lp[1]), case)
+
+
+def bitprobe_recipes():
+    BI = lambda w: ["BitsInteger", w, False, False]
+    N = ["name", "Nibble"]
+    return [
+        ["Bitwise", ["Struct", [["xs", ["GreedyRange", BI(3)]], ["tail", BI(2)]]]],
+        ["Bitwise", ["Struct", [["xs", ["GreedyRange", BI(20)]], ["tail", BI(12)]]]],
+        ["Bitwise", ["Struct", [["a", N], ["o", ["Optional", BI(12)]], ["b", N]]]],
+        ["Bitwise", ["Struct", [["a", N], ["s", ["Select", [BI(20), BI(12), BI(4)]]], ["rest", ["name", "GreedyBytes"]]]]],
+        ["Bitwise", ["Struct", [["n", N], ["xs", ["Array", ["this", "n"], BI(5)]], ["p", ["Optional", BI(7)]], ["rest", ["GreedyRange", ["name", "Bit"]]]]]],
+        ["Bitwise", ["GreedyRange", ["Struct", [["f", ["name", "Flag"]], ["v", BI(6)]]]]],
+        ["Struct", [["h", ["name", "Byte"]], ["b", ["Bitwise", ["Struct", [["xs", ["GreedyRange", BI(3)]], ["tail", BI(2)]]]]]]],
+    ]
+
+
+KINDS = {"peek": case_peek, "pointer": case_pointer, "select": case_select, "greedy": case_greedy, "union": case_union, "bitprobe": case_bitprobe}
 
 
 LAST = [None]
@@ -430,6 +499,8 @@ def run(ctx):
     for _ in range(ctx.pick(200, 3000)):
         k = trip.randint(2, 4)
         jobs.append(("union", tuple(trip.choice(names) for _ in range(k)), trip.random()))
+    for bi, br in enumerate(bitprobe_recipes()):
+        jobs.append(("bitprobe", bi, br))
     if ctx.index == 0:
         ctx.count("combinator_instances", len(jobs))
     for i, job in enumerate(jobs):
@@ -459,6 +530,10 @@ def run(ctx):
                     for start in (0, 1, 5):
                         for form in ("const", "ctx", "aux"):
                             run_case(ctx, {"kind": "pointer", "member": job[1], "data": tag(blob), "target": target, "offset": start, "form": form})
+        elif kind == "bitprobe":
+            ins = [bytes([a]) for a in range(256)] + [bytes([a, b]) for a in range(0, 256, 17) for b in (0, 0x5a, 0xff)] + [bytes(rng.getrandbits(8) for _ in range(L)) for L in (3, 3, 4, 4, 5, 6) for _ in range(ctx.pick(4, 40))] + [b""]
+            for data in ins:
+                run_case(ctx, {"kind": "bitprobe", "recipe": job[2], "data": tag(data)})
         elif kind == "optional":
             for data in inputs_for([job[1]], rng):
                 for off in (0, 1, 4):
